@@ -40,6 +40,13 @@ class Body:
         self.R = len(comps)
         self.bad = bad
         self.scale = max(abs(c[0]) for c in self.comps)
+        self.noise = 0.0            # absolute accuracy of one direct evaluation
+        self.domain = (-60.0, 60.0)  # where inputs may be drawn
+
+    def signal(self, order: int) -> float:
+        """smallest typical size of the order-th derivative (to decide whether a
+        tolerance is still informative)"""
+        return min(abs(c[0]) * abs(c[1]) ** order for c in self.comps)
 
     def __call__(self, x: Any) -> np.ndarray:
         x = np.asanyarray(x, dtype=float)
@@ -89,6 +96,129 @@ class Body:
         return max(abs(A) + abs(B) * (xm + 1) + abs(C) for (A, w, p, B, C) in self.comps)
 
 
+class ThermalBody:
+    """Exact values of the one-loop thermal functions J_b / J_f on x >= 0.5 by the
+    harness's own quadrature (scipy.integrate.quad at 1e-12), with closed-form
+    integrands for the first two x-derivatives.  Return dimension 2: (real part,
+    imaginary part = 0 for x >= 0), as the real JbIntegral / JfIntegral return."""
+
+    #: sup over x >= 0.5 of |f^(k)|, from 30-digit mpmath differentiation (decreasing in x)
+    BOUNDS = {"Jb": {2: 0.27, 3: 0.5, 4: 1.42, 5: 7.34, 6: 52.4},
+              "Jf": {2: 0.121, 3: 0.2, 4: 0.249, 5: 1.0, 6: 6.0}}
+    #: inf over 0.5 <= x <= 25 of |f^(k)|
+    SIGNAL = {"Jb": {1: 0.012, 2: 0.0011}, "Jf": {1: 0.012, 2: 0.0011}}
+    _cache: dict = {}
+
+    def __init__(self, which: str):
+        self.which = which
+        self.sign = -1.0 if which == "Jb" else 1.0
+        self.R = 2
+        self.bad = None
+        self.comps = None
+        self.noise = 5e-8       # scipy quad with default epsabs inside WallGo
+        self.domain = (0.5, 25.0)
+        self.scale = 2.0
+
+    def _one(self, x: float, n: int) -> float:
+        key = (self.which, n, x)
+        hit = ThermalBody._cache.get(key)
+        if hit is not None:
+            return hit
+        from scipy.integrate import quad  # pylint: disable=import-outside-toplevel
+        sgn = self.sign  # Jb: 1 - e^-E, 1/(e^E - 1);  Jf: 1 + e^-E, 1/(e^E + 1)
+
+        def integrand(y: float) -> float:
+            E = math.sqrt(y * y + x)
+            if n == 0:
+                return -sgn * y * y * math.log1p(sgn * math.exp(-E))
+            if E > 700:
+                return 0.0
+            eE = math.exp(E)
+            den = eE + sgn
+            if n == 1:
+                return 0.5 * y * y / (E * den)
+            return 0.5 * y * y * (-1.0 / (2 * E**3 * den) - eE / (2 * E * E * den * den))
+
+        val, _ = quad(integrand, 0.0, np.inf, epsabs=1e-13, epsrel=1e-12, limit=400)
+        ThermalBody._cache[key] = float(val)
+        return float(val)
+
+    def smooth(self, x: Any, n: int = 0) -> np.ndarray:
+        x = np.asanyarray(x, dtype=float)
+        out = np.zeros(x.shape + (2,))
+        for idx in np.ndindex(x.shape):
+            out[idx + (0,)] = self._one(float(x[idx]), n)
+        return out
+
+    def __call__(self, x: Any) -> np.ndarray:
+        return self.smooth(x, 0)
+
+    def isBad(self, x: Any, pad: float = 0.0) -> np.ndarray:
+        return np.zeros(np.asanyarray(x).shape, dtype=bool)
+
+    def bound(self, k: int) -> float:
+        return self.BOUNDS[self.which][k]
+
+    def signal(self, order: int) -> float:
+        return self.SIGNAL[self.which][order]
+
+    def magnitude(self, x: Any) -> float:
+        return 2.0
+
+
+class FreeEnergyBody:
+    """Exact broken-phase minimum and free energy of the Z2 quartic
+    V(phi,T) = -a T^4 + (c T^2 - mu^2) phi^2 / 2 + lam phi^4 / 4:
+    phi(T) = sqrt((mu^2 - c T^2)/lam),  F(T) = -a T^4 - (mu^2 - c T^2)^2 / (4 lam).
+    Return dimension 2: (phi, F), the column order of FreeEnergy's table."""
+
+    MU2, C, LAM, A = 1.0, 0.2, 0.5, 1.0
+    #: sup over 0.6 <= T <= 1.7 of |f^(k)| over both components (30-digit mpmath)
+    BOUNDS = {2: 35.0, 3: 41.7, 4: 24.5, 5: 74.4, 6: 622.0}
+    SIGNAL = {1: 0.17, 2: 0.31}
+
+    def __init__(self) -> None:
+        self.R = 2
+        self.bad = None
+        self.comps = None
+        # accuracy of one direct evaluation: scipy.optimize.minimize with default
+        # tolerance locates the minimum to ~1e-6 (measured 4e-7), the value far better
+        self.noise = 1e-5
+        self.domain = (0.6, 1.7)
+        self.scale = 10.0
+
+    def smooth(self, T: Any, n: int = 0) -> np.ndarray:
+        T = np.asanyarray(T, dtype=float)
+        u = (self.MU2 - self.C * T * T) / self.LAM
+        phi = np.sqrt(u)
+        if n == 0:
+            cols = [phi, -self.A * T**4 - (self.MU2 - self.C * T * T) ** 2 / (4 * self.LAM)]
+        elif n == 1:
+            cols = [-self.C * T / (self.LAM * phi),
+                    -4 * self.A * T**3 + self.C * T * (self.MU2 - self.C * T * T) / self.LAM]
+        elif n == 2:
+            cols = [-self.C / (self.LAM * phi) - self.C**2 * T * T / (self.LAM**2 * phi**3),
+                    -12 * self.A * T * T + self.C * (self.MU2 - 3 * self.C * T * T) / self.LAM]
+        else:
+            raise HarnessError("derivative order")
+        return np.stack(cols, axis=-1)
+
+    def __call__(self, T: Any) -> np.ndarray:
+        return self.smooth(T, 0)
+
+    def isBad(self, x: Any, pad: float = 0.0) -> np.ndarray:
+        return np.zeros(np.asanyarray(x).shape, dtype=bool)
+
+    def bound(self, k: int) -> float:
+        return self.BOUNDS[k]
+
+    def signal(self, order: int) -> float:
+        return self.SIGNAL[order]
+
+    def magnitude(self, x: Any) -> float:
+        return 10.0
+
+
 class Ctl:
     def __init__(self) -> None:
         self.calls = 0
@@ -117,6 +247,69 @@ def _makeClass(base: type) -> type:
             return self.simBody(x)
 
     return SimFunction
+
+
+def _makeThermalClass(base: type) -> type:
+    """the real JbIntegral / JfIntegral with only the fault seam added"""
+
+    class SimThermal(base):  # type: ignore[misc,valid-type]
+        def __init__(self, body: Any, ctl: Ctl, adaptive: bool, n0: int):
+            super().__init__(bUseAdaptiveInterpolation=adaptive,
+                             initialInterpolationPointCount=n0)
+            self.simCtl = ctl
+
+        def _functionImplementation(self, x: Any) -> Any:
+            ctl = self.simCtl
+            ctl.calls += 1
+            if ctl.armed is not None:
+                ctl.armed -= 1
+                if ctl.armed <= 0:
+                    ctl.armed = None
+                    ctl.fired = True
+                    raise InjectedFault("injected: function body raised")
+            return super()._functionImplementation(x)
+
+    return SimThermal
+
+
+def _makeFreeEnergyClasses(WallGo: Any) -> tuple:
+    """the real FreeEnergy on an analytic potential, with only the fault seam added"""
+
+    class Z2Potential(WallGo.EffectivePotential):
+        fieldCount = 1
+        effectivePotentialError = 1e-16
+
+        def evaluate(self, fields: Any, temperature: Any) -> Any:
+            phi = WallGo.Fields(fields).getField(0)
+            T = np.asarray(temperature)
+            b = FreeEnergyBody
+            return np.array(-b.A * T**4 + 0.5 * (b.C * T * T - b.MU2) * phi**2
+                            + 0.25 * b.LAM * phi**4)
+
+    class SimFreeEnergy(WallGo.FreeEnergy):
+        def __init__(self, body: Any, ctl: Ctl, adaptive: bool, n0: int):
+            pot = Z2Potential()
+            pot.configureDerivatives(WallGo.VeffDerivativeSettings(
+                temperatureVariationScale=1.0, fieldValueVariationScale=[1.0]))
+            super().__init__(pot, 1.0, WallGo.Fields([1.2]), initialInterpolationPointCount=n0)
+            if adaptive:
+                self.enableAdaptiveInterpolation()
+            else:
+                self.disableAdaptiveInterpolation()
+            self.simCtl = ctl
+
+        def _functionImplementation(self, temperature: Any) -> Any:
+            ctl = self.simCtl
+            ctl.calls += 1
+            if ctl.armed is not None:
+                ctl.armed -= 1
+                if ctl.armed <= 0:
+                    ctl.armed = None
+                    ctl.fired = True
+                    raise InjectedFault("injected: function body raised")
+            return super()._functionImplementation(temperature)
+
+    return Z2Potential, SimFreeEnergy
 
 
 class _NpProxy:
@@ -168,9 +361,12 @@ class InterpMachine(Machine):
                           "write_read", "evaluate", "derivative"})
     OBSERVERS = frozenset({"evaluate", "derivative", "write_read"})
     RULE = (
-        "one history = one InterpolatableFunction subclass instance (return dimension "
-        "1..4, exact analytic body, optionally non-finite on an interval, optionally "
-        "raising at the k-th call of an armed step) driven through up to 24 steps from "
+        "one history = one InterpolatableFunction subclass instance (87%: harness subclass, "
+        "return dimension 1..4, exact analytic body, optionally non-finite on an interval; "
+        "8%: the real JbIntegral/JfIntegral against the harness's own quadrature; 5%: the "
+        "real FreeEnergy on an analytic Z2 quartic with closed-form minimum, table built by "
+        "tracePhase; all optionally raising at the k-th call of an armed step) driven "
+        "through up to 24 steps from "
         "{new_table, evaluate, derivative, extend, set_modes, adaptive on/off, schedule, "
         "write_read (same or fresh instance), read_missing, arm_raise}; inputs are python "
         "floats, 0-d, list, 1-D, 2-D and empty arrays placed inside / below / above / "
@@ -182,7 +378,10 @@ class InterpMachine(Machine):
     ABSTRACTION = ("(has table, lower mode, upper mode, adaptive on, table size bucket, R, "
                    "bad interval overlaps table)")
     COMPONENTS_REAL = ["WallGo.InterpolatableFunction", "WallGo.helpers.derivative",
-                       "scipy.interpolate.CubicSpline", "numpy text I/O on scratch files"]
+                       "WallGo.FreeEnergy (+ EffectivePotential.findLocalMinimum, tracePhase) in "
+                       "5% of the runs", "WallGo.PotentialTools.JbIntegral / JfIntegral in 8% of "
+                       "the runs", "scipy.interpolate.CubicSpline",
+                       "numpy text I/O on scratch files"]
     COMPONENTS_STUB = ["analytic function bodies (sine + linear, exact derivatives known)",
                        "np.savetxt capture seam used to observe the current table through "
                        "the public writeInterpolationTable"]
@@ -209,14 +408,22 @@ class InterpMachine(Machine):
     # ------------------------------------------------------------------ config
     @staticmethod
     def drawConfig(rng: random.Random, tier: str) -> dict:
-        R = rng.choice([1, 1, 2, 3, 4])
+        provider = "stub"
+        roll = rng.random()
+        if roll < 0.04:
+            provider = "Jb"
+        elif roll < 0.08:
+            provider = "Jf"
+        elif roll < 0.13:
+            provider = "FreeEnergy"
+        R = rng.choice([1, 1, 2, 3, 4]) if provider == "stub" else 2
         comps = []
         for _ in range(R):
             A = rng.uniform(0.5, 2.0)
             comps.append([A, rng.uniform(0.5, 2.0), rng.uniform(0, 6.28),
                           A * rng.uniform(-0.2, 0.2), A * rng.uniform(-1, 1)])
         bad = None
-        if rng.random() < 0.4:
+        if provider == "stub" and rng.random() < 0.4:
             lo = rng.uniform(-8, 8)
             bad = {"lo": lo, "hi": lo + _logu(rng, 0.05, 3.0),
                    "comp": rng.choice([-1] + list(range(R))),
@@ -231,7 +438,7 @@ class InterpMachine(Machine):
             weights.update(evaluate=6, set_modes=2, adaptive=1, schedule=2, derivative=2,
                            new_table=1, extend=1, write_read=0, read_missing=0, arm_raise=0)
         return {
-            "R": R, "comps": comps, "bad": bad, "focus": focus,
+            "R": R, "comps": comps, "bad": bad, "focus": focus, "provider": provider,
             "adaptive": True if focus else rng.random() < 0.6,
             "threshold": rng.choice([2, 3, 5, 8]) if focus else
             rng.choice([1, 2, 3, 5, 8, 15, 40, 500]),
@@ -263,20 +470,33 @@ class InterpMachine(Machine):
         self.WallGo = WallGo
         self.mod = mod
         self.E = WallGo.EExtrapolationType
-        self.body = Body(cfg["comps"], cfg["bad"])
-        self.R = self.body.R
+        self.provider = cfg.get("provider", "stub")
         self.ctl = Ctl()
-        self.cls = _makeClass(WallGo.InterpolatableFunction)
+        if self.provider == "stub":
+            self.body: Any = Body(cfg["comps"], cfg["bad"])
+            self.cls = _makeClass(WallGo.InterpolatableFunction)
+        elif self.provider == "FreeEnergy":
+            self.body = FreeEnergyBody()
+            self.cls = _makeFreeEnergyClasses(WallGo)[1]
+            ctx.probes["real_subclass_FreeEnergy"] += 1
+        else:
+            import WallGo.PotentialTools as pt  # pylint: disable=import-outside-toplevel
+            self.body = ThermalBody(self.provider)
+            self.cls = _makeThermalClass(pt.JbIntegral if self.provider == "Jb"
+                                         else pt.JfIntegral)
+            ctx.probes[f"real_subclass_{self.provider}"] += 1
+        self.R = self.body.R
         self.captured: np.ndarray | None = None
         self._realNp = mod.np
         if isinstance(self._realNp, _NpProxy):  # a previous run did not clean up
             self._realNp = object.__getattribute__(self._realNp, "_real")
         mod.np = _NpProxy(self._realNp, self)
         self.obj = self._newObject(cfg["adaptive"])
-        self.modes = ["NONE", "NONE"]
+        self.modes = ["ERROR", "ERROR"] if self.provider == "FreeEnergy" else ["NONE", "NONE"]
         self.adaptive = cfg["adaptive"]
         self.nFiles = 0
         self.justUpdated = False
+        self.traced = False
 
     def _newObject(self, adaptive: bool) -> Any:
         obj = self.cls(self.body, self.ctl, adaptive, self.cfg["n0"])
@@ -311,10 +531,17 @@ class InterpMachine(Machine):
             return None
         return float(self.obj.interpolationRangeMin()), float(self.obj.interpolationRangeMax())
 
+    def _clip(self, v: float) -> float:
+        dlo, dhi = self.body.domain
+        return min(max(v, dlo), dhi)
+
     def _drawPoint(self, rng: random.Random, where: str, order: int = 1) -> float:
+        return self._clip(self._drawPointRaw(rng, where, order))
+
+    def _drawPointRaw(self, rng: random.Random, where: str, order: int = 1) -> float:
         rg = self._range()
         if rg is None:
-            return rng.uniform(-10, 10)
+            return rng.uniform(max(-10.0, self.body.domain[0]), min(10.0, self.body.domain[1]))
         lo, hi = rg
         span = max(hi - lo, 1e-3)
         if where == "inside":
@@ -338,6 +565,8 @@ class InterpMachine(Machine):
     def _drawX(self, rng: random.Random, order: int = 1) -> tuple[str, Any, str]:
         form = rng.choice(["float", "0d", "list", "1d", "1d", "2d", "empty"]
                           if rng.random() < 0.15 else ["float", "0d", "list", "1d", "1d", "2d"])
+        if self.provider == "FreeEnergy" and form in ("2d", "empty"):
+            form = "1d"  # FreeEnergy documents temperatures as a float or a 1-D array
         place = rng.choice(["inside", "below", "above", "mixed", "mixed", "edge"])
         if self.justUpdated:
             place = rng.choice(["below", "above", "mixed", "edge"])
@@ -373,8 +602,16 @@ class InterpMachine(Machine):
                 # look at the object right after an adaptive update
                 op = rng.choice(["evaluate", "evaluate", "derivative"])
         if op == "new_table":
-            a = rng.uniform(-10, 8)
-            return {"op": op, "a": a, "b": a + _logu(rng, 0.5, 10.0),
+            if self.provider == "FreeEnergy":
+                if not self.traced and rng.random() < 0.8:
+                    return {"op": op, "trace": True, "a": rng.uniform(0.6, 0.95),
+                            "b": rng.uniform(1.05, 1.7), "dT": rng.choice([0.02, 0.05, 0.1]),
+                            "n": 0}
+                a = rng.uniform(0.6, 1.3)
+                return {"op": op, "a": a, "b": self._clip(a + rng.uniform(0.2, 1.0)),
+                        "n": rng.choice([3, 5, 8, 12])}
+            a = rng.uniform(max(-10.0, self.body.domain[0]), 8)
+            return {"op": op, "a": a, "b": self._clip(a + _logu(rng, 0.5, 10.0)),
                     "n": rng.choice([2, 3, 4, 5, 8, 12, 20, 40])}
         if op == "evaluate":
             form, x, place = self._drawX(rng)
@@ -383,8 +620,16 @@ class InterpMachine(Machine):
         if op == "derivative":
             order = rng.choice([1, 2])
             form, x, place = self._drawX(rng, order)
+            interp = rng.random() < 0.85
+            if self.provider == "FreeEnergy" and form not in ("float", "0d"):
+                # FreeEnergy's function body takes a scalar or 1-D temperature; the
+                # finite-difference path stacks stencil points on a new axis, so
+                # without interpolation it is only defined for scalar input
+                interp = True
+                if not self.obj.hasInterpolation():
+                    form, x = "float", (x[0] if x else 1.0)
             return {"op": op, "form": form, "x": x, "place": place, "order": order,
-                    "interp": rng.random() < 0.85}
+                    "interp": interp}
         if op == "extend":
             rg = self._range() or (rng.uniform(-10, 0), rng.uniform(0.5, 10))
             lo, hi = rg
@@ -394,7 +639,7 @@ class InterpMachine(Machine):
                 else lo + span * rng.uniform(0, 0.3)
             newMax = hi + span * _logu(rng, 0.01, 1.0) if kind in ("both", "upper") \
                 else hi - span * rng.uniform(0, 0.3)
-            return {"op": op, "newMin": newMin, "newMax": newMax,
+            return {"op": op, "newMin": self._clip(newMin), "newMax": self._clip(newMax),
                     "pMin": rng.choice([0, 1, 2, 3, 5, 10]),
                     "pMax": rng.choice([0, 1, 2, 3, 5, 10])}
         if op == "set_modes":
@@ -528,7 +773,29 @@ class InterpMachine(Machine):
         vals = np.atleast_2d(self.body(xs).reshape(xs.size, self.R))
         return int(np.sum(np.all(np.isfinite(vals), axis=1)))
 
+    def _op_trace(self, step: dict, before: Table | None) -> Any:
+        """FreeEnergy.tracePhase builds the table (the way users get one)"""
+        a, b, dT = float(step["a"]), float(step["b"]), float(step["dT"])
+        if not hasattr(self.obj, "tracePhase") or not a < 1.0 < b or self.traced \
+                or b - a < 8 * dT:
+            raise Skip()  # one trace per object: every trace narrows the allowed range
+        self.traced = True
+        status, res = self._call("tracePhase",
+                                 lambda: self.obj.tracePhase(a, b, dT, rTol=1e-8))
+        after = self.table()
+        if status == "injected":
+            return ["trace", "injected"]
+        if status == "raised":
+            raise Violation("table-build", f"tracePhase-raised:{type(res).__name__}",
+                            f"tracePhase({a}, {b}, {dT}) raised {type(res).__name__}: {res}")
+        if after is None or after.xs.size < 2:
+            raise Violation("table-build", "tracePhase-no-table", "tracePhase built no table")
+        self.ctx.probes["table_built_by_tracePhase"] += 1
+        return ["trace", int(after.xs.size)]
+
     def _op_new_table(self, step: dict, before: Table | None) -> Any:
+        if step.get("trace"):
+            return self._op_trace(step, before)
         a, b, n = float(step["a"]), float(step["b"]), int(step["n"])
         if not (b > a and n >= 2):
             raise Skip()
@@ -627,6 +894,11 @@ class InterpMachine(Machine):
             wants = (req < old if side == "lower" else req > old) and pts > 0
             new = after.xs[after.xs < before.lo] if side == "lower" \
                 else after.xs[after.xs > before.hi]
+            if wants and abs(req - old) <= 1e-6 * (before.hi - before.lo):
+                # a request that exceeds the range by next to nothing may be
+                # honoured or ignored (points a few ulp apart would ruin the spline)
+                self.ctx.probes["extension_within_rounding_of_range"] += 1
+                continue
             if not wants:
                 if new.size:
                     raise Violation("extension", f"{what}:unrequested-points",
@@ -717,11 +989,13 @@ class InterpMachine(Machine):
         def directValue(idx: np.ndarray, outside: bool) -> None:
             if order == 0:
                 exp[idx] = body(xs[idx]).reshape(idx.sum(), self.R)
-                tol[idx] = 1e-12 * mag
+                tol[idx] = 1e-12 * mag + 10 * body.noise
             else:
                 exp[idx] = body.smooth(xs[idx], order)
-                # finite differences of the exact function (documented stencil)
-                tol[idx] = (1e-7 if order == 1 else 1e-5) * (mag + body.bound(5 + order - 1))
+                # finite differences of the exact function (documented stencil),
+                # plus the amplified evaluation noise of the function itself
+                tol[idx] = (1e-7 if order == 1 else 1e-5) * (mag + body.bound(5 + order - 1)) \
+                    + (7.0 if order == 1 else 27.0) * body.noise / DX[order] ** order
                 judged[idx] &= ~body.isBad(xs[idx], pad=5 * DX[order])
 
         if direct:
@@ -757,10 +1031,23 @@ class InterpMachine(Machine):
                     (1e-7 if order == 1 else 1e-5) * (big + np.abs(exp[mask]))
         return "value", exp, tol, judged
 
+    def _unwrap(self, res: Any, shape: tuple) -> Any:
+        """FreeEnergy wraps its (fields..., Veff) array in a FreeEnergyValueType"""
+        if not hasattr(res, "veffValue"):
+            return res
+        fields = np.asarray(res.fieldsAtMinimum, dtype=float)
+        veff = np.asarray(res.veffValue, dtype=float)
+        n = int(np.prod(shape)) if shape else 1
+        if fields.size != n or veff.size != n:
+            return np.concatenate([fields.ravel(), veff.ravel()])
+        return np.stack([fields.reshape(shape), veff.reshape(shape)], axis=-1)
+
     def _judge(self, what: str, step: dict, status: str, res: Any, before: Table | None,
                after: Table | None, order: int) -> Any:
         x = self._x(step)
         xa = np.asanyarray(x, dtype=float)
+        if status == "ok":
+            res = self._unwrap(res, xa.shape)
         xs = xa.ravel()
         interp = bool(step["interp"])
         changed = (before is None) != (after is None) or (
@@ -773,7 +1060,8 @@ class InterpMachine(Machine):
         if status == "injected":
             return [what, "injected"]
         if status == "raised":
-            if isinstance(res, ValueError) and any(v[0] == "raise" for v in verdicts):
+            errorMode = isinstance(res, ValueError) or type(res).__name__ == "WallGoError"
+            if errorMode and any(v[0] == "raise" for v in verdicts):
                 self.ctx.probes["error_mode_raised"] += 1
                 return [what, "ValueError"]
             raise Violation(
@@ -848,11 +1136,12 @@ class InterpMachine(Machine):
         eps = 0.0
         for tab in (before, after):
             if tab is not None and tab.xs.size >= 2:
-                eps = max(eps, float(np.max(np.diff(tab.xs))) ** 4 * body.bound(4) + 1e-9 * mag)
+                eps = max(eps, float(np.max(np.diff(tab.xs))) ** 4 * body.bound(4) + 1e-9 * mag
+                          + body.noise)
         coefSum = 7.0 if order == 1 else 27.0
         fdTol = (1e-7 if order == 1 else 1e-5) * (mag + body.bound(5 + order - 1))
         bound = fdTol + coefSum * eps / DX[order] ** order
-        signal = min(abs(c[0]) * abs(c[1]) ** order for c in body.comps)
+        signal = body.signal(order)
         useTable = interp and before is not None and before.spline is not None
         for i, x in enumerate(xs):
             if not clean[i]:
@@ -911,7 +1200,8 @@ class InterpMachine(Machine):
             return
         self.ctx.checks["accuracy"] += 1
         hmax = float(np.max(np.diff(tab.xs)))
-        bound = hmax ** 4 * self.body.bound(4) + 1e-9 * self.body.magnitude(xs)
+        bound = hmax ** 4 * self.body.bound(4) + 1e-9 * self.body.magnitude(xs) \
+            + 10 * self.body.noise
         # a non-finite interval inside the range leaves a gap; hmax covers it
         err = np.abs(gf[inside] - self.body.smooth(xs[inside], 0))
         self.ctx.margin("accuracy", float(np.max(err) / bound))
@@ -1021,7 +1311,8 @@ class InterpMachine(Machine):
         # the reader evaluates as the spline through the table it now holds
         # (comparing with the writer's spline instead would measure the
         # conditioning of strongly non-uniform tables, not the round trip)
-        got = np.asarray(self.obj(pts), dtype=float).reshape(pts.size, self.R)
+        got = np.asarray(self._unwrap(self.obj(pts), pts.shape),
+                         dtype=float).reshape(pts.size, self.R)
         want = after.spline(pts).reshape(pts.size, self.R)
         if got.shape != want.shape or not np.all(
                 np.abs(got - want) <= 1e-10 * (tmag + np.abs(want))):
@@ -1054,7 +1345,7 @@ class InterpMachine(Machine):
         want = self.body(xs).reshape(xs.size, self.R)
         tmag = float(np.max(np.abs(tab.vals))) + 1e-300
         with np.errstate(all="ignore"):
-            bad = ~(np.abs(tab.vals - want) <= 1e-12 * tmag)
+            bad = ~(np.abs(tab.vals - want) <= 1e-12 * tmag + 10 * self.body.noise)
         if np.any(bad):
             i = int(np.argmax(np.any(bad, axis=1)))
             raise Violation(
